@@ -6,7 +6,7 @@ import time
 
 HERE = os.path.dirname(os.path.dirname(os.path.abspath(__file__)))
 
-QUICK_RUNS = {"C09": 720, "C11": 720, "C10": 96}
+QUICK_RUNS = {"C09": 720, "C11": 720, "C10": 192}
 THOROUGH_BUDGET_S = 1800
 
 LEVEL_RULE = {
